@@ -451,7 +451,10 @@ int main(int argc, char** argv) {
         // fixed probes, run at every seed: keywords read by the parser itself (INCLUDE, PATHS, …)
         // and a few ordinary ones with their record emptied, in front of and inside a deck
         std::vector<std::string> fixedDecks;
-        for (auto kw : { "INCLUDE", "PATHS", "IMPORT", "TITLE", "START", "DIMENS", "WELSPECS", "EQUALS", "SKIP", "ENDINC", "UDQ", "ACTIONX", "PYACTION", "TSTEP" })
+        for (auto kw : { "INCLUDE", "PATHS", "IMPORT", "TITLE", "START", "DIMENS", "WELSPECS", "EQUALS", "SKIP", "ENDINC", "UDQ", "ACTIONX", "PYACTION", "TSTEP",
+                         // keywords the grid / state constructors index without looking at the record (MAPAXES with an empty record: MapAxes.cpp)
+                         "MAPAXES", "MAPUNITS", "GRIDUNIT", "GDORIENT", "SPECGRID", "COORD", "ZCORN", "ACTNUM", "PINCH", "MINPV", "NNC", "FAULTS", "MULTFLT",
+                         "TOPS", "DXV", "DEPTHZ", "RADIAL", "EQLDIMS", "TABDIMS", "REGDIMS", "ENDSCALE", "SATOPTS", "AQUDIMS", "WELLDIMS", "UDQDIMS", "ACTDIMS" })
             for (auto tail : { "\n/\n", "\n/\n/\n", "\n", " /\n", "\n 'A' /\n/\n", "\n 1* /\n" }) {
                 fixedDecks.push_back(std::string(kw) + tail);
                 fixedDecks.push_back("RUNSPEC\nDIMENS\n 2 2 1 /\nGRID\n" + std::string(kw) + tail + "PORO\n 4*0.3 /\nSCHEDULE\n" + std::string(kw) + tail);
